@@ -265,3 +265,26 @@ def inputs_clause(out, what):
     if ch:
         return [('inputs/modified-by-analysis', f'{what} modified the object(s) it was given: {", ".join(ch)}')]
     return []
+
+
+def call_plots(obj, names, backends=('plotly', 'matplotlib')):
+    """Figures are read-only views of an analysis: call the plotting methods (both backends), ignore whatever they return or reject"""
+    import os
+    os.environ.setdefault('MPLBACKEND', 'Agg')
+    called = 0
+    for n in names:
+        f = getattr(obj, n, None)
+        if f is None:
+            continue
+        for b in backends:
+            try:
+                f(backend=b)
+                called += 1
+            except Exception:
+                pass
+    try:
+        import matplotlib.pyplot as plt
+        plt.close('all')
+    except Exception:
+        pass
+    return called
